@@ -5,6 +5,7 @@ import (
 	"go/constant"
 	"go/token"
 	"go/types"
+	"sort"
 	"strings"
 
 	"golang.org/x/tools/go/ssa"
@@ -2374,6 +2375,1148 @@ func ruleWRITE1(c *Ctx) []Ob {
 					o.add(OK, key, pos, "every path from the updater call to a success return or to the next document passes through a call that certainly writes (or deletes) the record")
 				} else {
 					o.add(VIOLATED, key, pos, "a path leads from the updater call to %s without the document record being written or deleted: the update is acknowledged but what is stored keeps its old value, type or zone", bad)
+				}
+			}
+		}
+	}
+	return o.list
+}
+
+// ---------------------------------------------------------------- OVF1
+
+// OVF1: two caller-supplied integers (the skip and the limit of a query and
+// whatever is computed from them) are never added or multiplied: either can be
+// math.MaxInt ("no limit"), and a wrapped sum turns the end of the window
+// negative, so the first document past the skip already "exceeds" it.
+func ruleOVF1(c *Ctx) []Ob {
+	o := newObs(c, "OVF1")
+	tFields := map[string]bool{} // "Type.field" holding a caller-supplied int
+	tFuncs := map[*ssa.Function]bool{}
+	tainted := map[ssa.Value]bool{}
+	isInt := func(v ssa.Value) bool { return isIntType(v.Type()) }
+	fieldKey := func(n *types.Named, f string) string { return namedName(n) + "." + f }
+	var libs []*ssa.Function
+	for _, fn := range c.LibFuncs {
+		if rel := c.pkgRel(fn); rel == "" || rel == "query" {
+			libs = append(libs, fn)
+		}
+	}
+	for changed := true; changed; {
+		changed = false
+		mark := func(v ssa.Value) {
+			if !tainted[v] {
+				tainted[v] = true
+				changed = true
+			}
+		}
+		for _, fn := range libs {
+			// int parameters of exported methods of the query builder
+			if fn.Parent() == nil && fn.Object() != nil && fn.Object().Exported() && c.pkgRel(fn) == "query" {
+				for i, p := range fn.Params {
+					if i == 0 && fn.Signature.Recv() != nil {
+						continue
+					}
+					if isInt(p) {
+						mark(p)
+					}
+				}
+			}
+			for _, b := range fn.Blocks {
+				for _, in := range b.Instrs {
+					switch x := in.(type) {
+					case *ssa.UnOp:
+						if x.Op == token.MUL && isInt(x) {
+							if _, f, n := fieldOfAddr(x.X); n != nil && tFields[fieldKey(n, f)] {
+								mark(x)
+							}
+							if al, ok := x.X.(*ssa.Alloc); ok {
+								for _, s := range storesTo(al) {
+									if tainted[s] {
+										mark(x)
+									}
+								}
+							}
+						}
+						if x.Op == token.SUB && tainted[x.X] {
+							mark(x)
+						}
+					case *ssa.Field:
+						if isInt(x) {
+							if n, ok := x.X.Type().(*types.Named); ok {
+								if st, ok := n.Underlying().(*types.Struct); ok && tFields[fieldKey(n, st.Field(x.Field).Name())] {
+									mark(x)
+								}
+							}
+						}
+					case *ssa.Store:
+						if tainted[x.Val] {
+							if _, f, n := fieldOfAddr(x.Addr); n != nil && !tFields[fieldKey(n, f)] {
+								tFields[fieldKey(n, f)] = true
+								changed = true
+							}
+						}
+					case *ssa.Phi:
+						for _, e := range x.Edges {
+							if tainted[e] {
+								mark(x)
+							}
+						}
+					case *ssa.BinOp:
+						if isInt(x) && (tainted[x.X] || tainted[x.Y]) {
+							switch x.Op {
+							case token.ADD, token.SUB, token.MUL:
+								mark(x)
+							}
+						}
+					case *ssa.Convert:
+						if tainted[x.X] && isInt(x) {
+							mark(x)
+						}
+					case *ssa.Call:
+						if g := staticCallee(x); g != nil && tFuncs[c.declared(g)] && isInt(x) {
+							mark(x)
+						}
+						// arguments flow into parameters of static library callees
+						if g := staticCallee(x); g != nil && c.IsLib(c.declared(g)) {
+							g = c.declared(g)
+							for i, a := range x.Common().Args {
+								if tainted[a] && i < len(g.Params) {
+									mark(g.Params[i])
+								}
+							}
+						}
+					case *ssa.Return:
+						for _, r := range x.Results {
+							if tainted[r] && !tFuncs[fn] {
+								tFuncs[fn] = true
+								changed = true
+							}
+						}
+					}
+				}
+			}
+		}
+	}
+	n := 0
+	for _, fn := range libs {
+		k := 0
+		for _, b := range fn.Blocks {
+			for _, in := range b.Instrs {
+				bo, ok := in.(*ssa.BinOp)
+				if !ok || !isInt(bo) || (bo.Op != token.ADD && bo.Op != token.MUL) {
+					continue
+				}
+				_, cx := bo.X.(*ssa.Const)
+				_, cy := bo.Y.(*ssa.Const)
+				if cx || cy || !(tainted[bo.X] || tainted[bo.Y]) {
+					continue
+				}
+				n++
+				k++
+				key := fmt.Sprintf("%s/%s #%d", c.fname(fn), bo.Op, k)
+				if tainted[bo.X] && tainted[bo.Y] {
+					o.add(VIOLATED, key, relPath(c, bo.Pos()), "two caller-supplied integers (%s, %s) are combined with %s: with a limit or skip near math.MaxInt the result wraps around and the window test inverts", describeValue(c, bo.X), describeValue(c, bo.Y), bo.Op)
+				} else {
+					o.add(OK, key, relPath(c, bo.Pos()), "only one operand is caller-supplied")
+				}
+			}
+		}
+	}
+	var fs []string
+	for f := range tFields {
+		fs = append(fs, f)
+	}
+	sort.Strings(fs)
+	if len(fs) == 0 {
+		o.add(UNDECIDED, "sources", "-", "no field holding a caller-supplied integer found (Query.Skip/Limit)")
+	} else {
+		o.add(OK, "sources", "-", "caller-supplied integers live in %s; %d additions/multiplications involve them, none combines two", strings.Join(fs, ", "), n)
+	}
+	return o.list
+}
+
+// ---------------------------------------------------------------- NORM2
+
+// NORM2: the visitor that normalises the literals of a criteria tree rebuilds
+// the same tree: each node it returns has the operator (and field) of the node
+// it was given, and its children are the results of visiting the corresponding
+// children. Only the operand value may differ. (Rewriting In(x) to Eq(x),
+// say, is not an equivalence: the operators disagree on absent fields.)
+func ruleNORM2(c *Ctx) []Ob {
+	o := newObs(c, "NORM2")
+	normalize := c.lookupFunc("internal", "Normalize")
+	var visitors []*types.Named
+	var allV []*types.Named
+	if vi := c.visitorIface(); vi != nil {
+		for _, sp := range c.LibPkgs {
+			for _, mem := range sp.Members {
+				if tn, ok := mem.(*ssa.Type); ok {
+					if n, ok := tn.Type().(*types.Named); ok && types.Implements(types.NewPointer(n), vi) {
+						if _, isI := n.Underlying().(*types.Interface); !isI {
+							allV = append(allV, n)
+						}
+					}
+				}
+			}
+		}
+	}
+	sort.Slice(allV, func(i, j int) bool { return allV[i].Obj().Name() < allV[j].Obj().Name() })
+	for _, n := range allV {
+		for _, m := range c.visitorMethods(n) {
+			found := false
+			allCalls(m, func(call ssa.CallInstruction) {
+				if g := staticCallee(call); g != nil && normalize != nil && c.declared(g) == normalize {
+					found = true
+				}
+			})
+			if found {
+				visitors = append(visitors, n)
+				break
+			}
+		}
+	}
+	if len(visitors) == 0 {
+		o.add(UNDECIDED, "visitor", "-", "no criteria visitor calling internal.Normalize found")
+		return softenUndecided(o.list)
+	}
+	for _, V := range visitors {
+		for _, m := range c.visitorMethods(V) {
+			var node *ssa.Parameter
+			for _, p := range m.Params {
+				if pt, ok := p.Type().(*types.Pointer); ok {
+					if nn, ok := pt.Elem().(*types.Named); ok && namedPkgPath(nn) == c.ModPath+"/query" {
+						node = p
+					}
+				}
+			}
+			if node == nil {
+				continue
+			}
+			nodeT := node.Type().(*types.Pointer).Elem().(*types.Named)
+			st, _ := nodeT.Underlying().(*types.Struct)
+			fromNode := func(v ssa.Value, field string) bool {
+				ogs := origins(stripIfaceOnly(v))
+				if len(ogs) == 0 {
+					return false
+				}
+				for _, og := range ogs {
+					base, f, nn := fieldLoad(og)
+					if f != field || nn == nil || !types.Identical(nn, nodeT) {
+						return false
+					}
+					okb := false
+					for _, bo := range origins(base) {
+						if bo == ssa.Value(node) {
+							okb = true
+						}
+					}
+					if !okb {
+						return false
+					}
+				}
+				return true
+			}
+			nret := 0
+			for _, ret := range returnsOf(m) {
+				rv, ok := returnedValue(ret, 0)
+				if !ok {
+					continue
+				}
+				for _, og := range origins(rv) {
+					if isNilConst(og) || isNilConst(stripIfaceOnly(og)) {
+						continue // the error path
+					}
+					nret++
+					key := fmt.Sprintf("%s.%s/rebuilds the same node", V.Obj().Name(), m.Name())
+					if nret > 1 {
+						key = fmt.Sprintf("%s #%d", key, nret)
+					}
+					pos := relPath(c, ret.Pos())
+					al, isAl := stripIfaceOnly(og).(*ssa.Alloc)
+					if !isAl {
+						if stripIfaceOnly(og) == ssa.Value(node) {
+							o.add(OK, key, pos, "returns the node it was given")
+							continue
+						}
+						o.add(UNDECIDED, key, pos, "the returned value is not a node literal")
+						continue
+					}
+					an, _ := al.Type().Underlying().(*types.Pointer).Elem().(*types.Named)
+					if an == nil || !types.Identical(an, nodeT) {
+						o.add(VIOLATED, key, pos, "visiting a %s returns a %s", nodeT.Obj().Name(), typeString(al.Type()))
+						continue
+					}
+					bad := ""
+					stored := map[string]ssa.Value{}
+					for _, r := range realReferrers(al) {
+						fa, ok := r.(*ssa.FieldAddr)
+						if !ok {
+							continue
+						}
+						_, f, _ := fieldOfAddr(fa)
+						for _, rr := range realReferrers(fa) {
+							if s, ok := rr.(*ssa.Store); ok && s.Addr == ssa.Value(fa) {
+								stored[f] = s.Val
+							}
+						}
+					}
+					for i := 0; st != nil && i < st.NumFields(); i++ {
+						f := st.Field(i)
+						val, has := stored[f.Name()]
+						switch {
+						case c.isCriteriaType(f.Type()):
+							// child: the visit of the same child
+							if !has {
+								bad = "child " + f.Name() + " is not set"
+								break
+							}
+							okc := false
+							for _, co := range origins(val) {
+								ta, ok := co.(*ssa.TypeAssert)
+								if !ok {
+									okc = false
+									break
+								}
+								ac, _ := c.visitCallOf(ta.X)
+								if ac == nil || !ac.Common().IsInvoke() || !fromNode(ac.Common().Value, f.Name()) {
+									okc = false
+									break
+								}
+								okc = true
+							}
+							if !okc {
+								bad = "child " + f.Name() + " is not the result of visiting the same child of the given node"
+							}
+						case f.Name() == "Value":
+							// the operand: normalised
+						default:
+							if !has {
+								if !isZeroOK(f.Type()) {
+									bad = f.Name() + " is not copied"
+								} else {
+									bad = f.Name() + " is left at its zero value instead of being copied from the given node"
+								}
+								break
+							}
+							if !fromNode(val, f.Name()) {
+								bad = f.Name() + " of the rebuilt node is not (only) the " + f.Name() + " of the given node"
+							}
+						}
+						if bad != "" {
+							break
+						}
+					}
+					if bad != "" {
+						o.add(VIOLATED, key, pos, "%s: normalisation must change operand values only, the rewritten criteria is evaluated instead of the caller's", bad)
+					} else {
+						o.add(OK, key, pos, "same operator/field, children visited in place, only the operand value differs")
+					}
+				}
+			}
+		}
+	}
+	return o.list
+}
+
+func isZeroOK(t types.Type) bool { return false }
+
+// ---------------------------------------------------------------- ADP9
+
+// ADP9: the seek of an adapter built on bbolt's cursor gives the positions the
+// store.Cursor contract (and badger's iterator) gives. bbolt's Cursor.Seek
+// returns the first key >= target, or nil past the last key. Therefore
+// (a) whatever it returns replaces the adapter's current position on every
+//     path (a seek that finds nothing must not leave the previous position
+//     valid), and
+// (b) for the nil result there is a repositioning call (Last or Prev) that is
+//     not confined to the key != nil case: a reverse seek past the last key
+//     lands on the last key, as on badger.
+func ruleADP9(c *Ctx) []Ob {
+	o := newObs(c, "ADP9")
+	const bseek = "(*go.etcd.io/bbolt.Cursor).Seek"
+	for _, fn := range c.storeImpls("Cursor", "Seek") {
+		var bcall *ssa.Call
+		allCalls(fn, func(ci ssa.CallInstruction) {
+			if cl, ok := ci.(*ssa.Call); ok && calleeFullName(cl) == bseek {
+				bcall = cl
+			}
+		})
+		if bcall == nil {
+			continue // not a bbolt-cursor adapter (badger's iterator implements the contract itself)
+		}
+		keys := resultValues(bcall, 0)
+		isKey := func(fnc *ssa.Function) func(x ssa.Value) bool {
+			return func(x ssa.Value) bool {
+				for _, og := range c.paramSources(x, 0) {
+					for _, k := range keys {
+						if og == k {
+							return true
+						}
+					}
+				}
+				return false
+			}
+		}
+		// (a) the position field is stored on every path
+		keyA := c.fname(fn) + "/position replaced on every path"
+		recv := recvNamed(fn)
+		cut := map[*ssa.BasicBlock]bool{}
+		field := ""
+		for _, b := range fn.Blocks {
+			for _, in := range b.Instrs {
+				if st, ok := in.(*ssa.Store); ok {
+					if _, f, n := fieldOfAddr(st.Addr); n != nil && recv != nil && types.Identical(n, recv) {
+						cut[b] = true
+						field = f
+					}
+				}
+			}
+		}
+		if field == "" {
+			o.add(UNDECIDED, keyA, relPath(c, fn.Pos()), "the adapter's position field was not found")
+		} else {
+			seen := map[*ssa.BasicBlock]bool{}
+			stack := []*ssa.BasicBlock{bcall.Block()}
+			if cut[bcall.Block()] {
+				stack = nil
+			}
+			bad := ""
+			for len(stack) > 0 && bad == "" {
+				x := stack[len(stack)-1]
+				stack = stack[:len(stack)-1]
+				if seen[x] || (cut[x] && x != bcall.Block()) {
+					continue
+				}
+				seen[x] = true
+				if ret, ok := x.Instrs[len(x.Instrs)-1].(*ssa.Return); ok {
+					bad = relPath(c, ret.Pos())
+				}
+				stack = append(stack, x.Succs...)
+			}
+			if bad != "" {
+				o.add(VIOLATED, keyA, relPath(c, bcall.Pos()), "after the backend seek a path reaches the return at %s without assigning %s: a seek that finds nothing leaves the previous position in place and Valid() keeps answering true for it (badger: invalid)", bad, field)
+			} else {
+				o.add(OK, keyA, relPath(c, bcall.Pos()), "%s is assigned on every path after the backend seek", field)
+			}
+		}
+		// (b) repositioning for the nil result
+		keyB := c.fname(fn) + "/seek past the last key"
+		found, serves := false, false
+		var visit func(f *ssa.Function, depth int)
+		seenF := map[*ssa.Function]bool{}
+		visit = func(f *ssa.Function, depth int) {
+			if f == nil || seenF[f] || depth > 2 || len(f.Blocks) == 0 {
+				return
+			}
+			seenF[f] = true
+			nn := nonNilEdges(f, isKey(f))
+			allCalls(f, func(ci ssa.CallInstruction) {
+				full := calleeFullName(ci)
+				if full == "(*go.etcd.io/bbolt.Cursor).Last" || full == "(*go.etcd.io/bbolt.Cursor).Prev" {
+					found = true
+					if !guardedBy(f, ci.Block(), nn) {
+						serves = true
+					}
+				}
+				if g := staticCallee(ci); g != nil && c.IsLib(c.declared(g)) {
+					// a callee reached only in the non-nil case does not serve the nil case
+					if !guardedBy(f, ci.Block(), nn) {
+						visit(c.declared(g), depth+1)
+					}
+				}
+			})
+		}
+		visit(fn, 0)
+		// (c) with a key found, a reverse cursor steps back unless that key IS the target
+		keyC := c.fname(fn) + "/reverse step back unless the found key equals the target"
+		var seekParam ssa.Value
+		for _, p := range fn.Params {
+			if isStringOrBytes(p.Type()) {
+				seekParam = p
+			}
+		}
+		isSeek := func(x ssa.Value) bool {
+			for _, og := range c.paramSources(x, 0) {
+				if og == seekParam {
+					return true
+				}
+			}
+			return false
+		}
+		nPrev, okPrev := 0, 0
+		for f := range seenF {
+			var neq []edge
+			ifEdges(f, func(cond ssa.Value, e edge) {
+				neg := false
+				for {
+					if u, ok := cond.(*ssa.UnOp); ok && u.Op == token.NOT {
+						cond, neg = u.X, !neg
+						continue
+					}
+					break
+				}
+				pair := func(a, b ssa.Value) bool {
+					return (isKey(f)(a) && isSeek(b)) || (isKey(f)(b) && isSeek(a))
+				}
+				if cl, ok := cond.(*ssa.Call); ok && calleeFullName(cl) == "bytes.Equal" {
+					a := cl.Common().Args
+					if pair(a[0], a[1]) && e.Branch == neg { // the edge on which Equal is false
+						neq = append(neq, e)
+					}
+				}
+				if bo, ok := cond.(*ssa.BinOp); ok {
+					// string(found) != string(target)
+					if (bo.Op == token.EQL || bo.Op == token.NEQ) && pair(stripConv(bo.X), stripConv(bo.Y)) {
+						if e.Branch != neg == (bo.Op == token.NEQ) {
+							neq = append(neq, e)
+						}
+					}
+					// bytes.Compare(found, target) != 0 / > 0 (the found key is never smaller)
+					if cl, ok := bo.X.(*ssa.Call); ok && calleeFullName(cl) == "bytes.Compare" {
+						if k, isK := constInt(bo.Y); isK && k == 0 {
+							a := cl.Common().Args
+							keyFirst := isKey(f)(a[0]) && isSeek(a[1])
+							seekFirst := isKey(f)(a[1]) && isSeek(a[0])
+							differs := false
+							switch {
+							case bo.Op == token.NEQ && (keyFirst || seekFirst):
+								differs = e.Branch != neg
+							case bo.Op == token.EQL && (keyFirst || seekFirst):
+								differs = e.Branch == neg
+							case bo.Op == token.GTR && keyFirst, bo.Op == token.LSS && seekFirst:
+								differs = e.Branch != neg
+							default:
+								return
+							}
+							if differs {
+								neq = append(neq, e)
+							}
+						}
+					}
+				}
+			})
+			allCalls(f, func(ci ssa.CallInstruction) {
+				if calleeFullName(ci) != "(*go.etcd.io/bbolt.Cursor).Prev" {
+					return
+				}
+				if !guardedBy(f, ci.Block(), nonNilEdges(f, isKey(f))) {
+					return // the nil-result case, (b)
+				}
+				nPrev++
+				if guardedBy(f, ci.Block(), neq) {
+					okPrev++
+				}
+			})
+		}
+		switch {
+		case nPrev == 0:
+			o.add(VIOLATED, keyC, relPath(c, bcall.Pos()), "a reverse cursor never steps back from the key bbolt found: bbolt stops at the first key at or after the target, a reverse seek must land on the last key at or before it")
+		case okPrev < nPrev:
+			o.add(VIOLATED, keyC, relPath(c, bcall.Pos()), "the step back from the key bbolt found is not decided by bytes.Equal(found, target): whenever the found key differs from the target it sorts after it, and a reverse cursor must not stay on it (a target that is a proper prefix of the next key leaves bbolt one key too far; badger steps back)")
+		default:
+			o.add(OK, keyC, relPath(c, bcall.Pos()), "Prev is called exactly when the found key differs from the target")
+		}
+		switch {
+		case serves:
+			o.add(OK, keyB, relPath(c, bcall.Pos()), "a repositioning call (Last/Prev) is reachable when the backend seek found no key")
+		case found:
+			o.add(VIOLATED, keyB, relPath(c, bcall.Pos()), "the only repositioning (Prev/Last) happens when the backend seek returned a key: a reverse seek past the last key stays invalid instead of landing on the last key (badger lands on it)")
+		default:
+			o.add(VIOLATED, keyB, relPath(c, bcall.Pos()), "no repositioning call for the case in which the backend seek returns no key: a reverse seek past the last key stays invalid (badger lands on the last key)")
+		}
+	}
+	if len(o.list) == 0 {
+		o.add(INFO, "bbolt-cursor adapter", "-", "no store.Cursor.Seek implementation calls (*bbolt.Cursor).Seek")
+	}
+	return o.list
+}
+
+// ---------------------------------------------------------------- RNG3
+
+type absRange struct {
+	s, e   int64 // 0 = nil, otherwise a token of the ordered value set
+	si, ei bool
+}
+
+func (r absRange) isNilOnly() bool { return r.s == 0 && r.e == 0 && r.si && r.ei }
+
+// member: the meaning of a range. nil (0) sorts before every value. A nil bound
+// whose inclusion flag is false is an open end (this is how the planner writes
+// Lt/LtEq/Gt/GtEq); a nil bound that is included is the value nil itself, as in
+// the nil-only range [nil, nil]: as a lower bound it excludes nothing, as an
+// upper bound it admits nil only.
+func (r absRange) member(v int64) bool {
+	if r.s != 0 && (v < r.s || (v == r.s && !r.si)) {
+		return false
+	}
+	switch {
+	case r.e == 0 && !r.ei:
+		return true
+	case r.e == 0:
+		return v == 0
+	}
+	return v < r.e || (v == r.e && r.ei)
+}
+
+func (r absRange) String() string {
+	b := func(v int64) string {
+		if v == 0 {
+			return "nil"
+		}
+		return fmt.Sprintf("v%d", v)
+	}
+	l, rr := "(", ")"
+	if r.si {
+		l = "["
+	}
+	if r.ei {
+		rr = "]"
+	}
+	return l + b(r.s) + ", " + b(r.e) + rr
+}
+
+// RNG3: Range.IsEmpty and Range.Intersect, abstractly evaluated on every range
+// over an ordered set of symbolic values (the code touches values only through
+// internal.Compare and nil tests, so finitely many orderings cover all inputs):
+// a range is reported empty only if no value lies in it, and the intersection
+// of two ranges is not reported empty and still contains every value that lies
+// in both. Operands are not modified.
+func ruleRNG3(c *Ctx) []Ob {
+	o := newObs(c, "RNG3")
+	rt := c.libType("index", "Range")
+	isEmpty := c.lookupMethod("index", "Range", "IsEmpty")
+	inter := c.lookupMethod("index", "Range", "Intersect")
+	cmp := c.lookupFunc("internal", "Compare")
+	if rt == nil || isEmpty == nil || inter == nil || cmp == nil {
+		o.add(UNDECIDED, "model", "-", "index.Range, its IsEmpty/Intersect or internal.Compare not found")
+		return softenUndecided(o.list)
+	}
+	st, ok := rt.Underlying().(*types.Struct)
+	if !ok {
+		o.add(UNDECIDED, "model", "-", "index.Range is not a struct")
+		return softenUndecided(o.list)
+	}
+	fi := map[string]int{}
+	for i := 0; i < st.NumFields(); i++ {
+		fi[st.Field(i).Name()] = i
+	}
+	for _, f := range []string{"Start", "End", "StartIncluded", "EndIncluded"} {
+		if _, ok := fi[f]; !ok {
+			o.add(UNDECIDED, "model", "-", "index.Range has no field %s", f)
+			return softenUndecided(o.list)
+		}
+	}
+	tok := func(v int64) aval {
+		if v == 0 {
+			return aval{K: aTag, Tag: nil}
+		}
+		return aval{K: aTag, Tag: types.Typ[types.Int64], C: constant.MakeInt64(v)}
+	}
+	untok := func(a aval) (int64, bool) {
+		if a.K != aTag {
+			return 0, false
+		}
+		if a.Tag == nil {
+			return 0, true
+		}
+		if a.C == nil {
+			return 0, false
+		}
+		k, _ := constant.Int64Val(a.C)
+		return k, true
+	}
+	newEval := func() *tagEval {
+		te := c.newTagEval()
+		te.heap = map[int64]map[int]aval{}
+		te.callHookEnv = func(call *ssa.Call, val func(ssa.Value) aval) ([]aval, bool) {
+			g := staticCallee(call)
+			if g == nil || c.declared(g) != cmp {
+				return nil, false
+			}
+			a, ok1 := untok(val(call.Common().Args[0]))
+			b, ok2 := untok(val(call.Common().Args[1]))
+			if !ok1 || !ok2 {
+				return []aval{{}}, true
+			}
+			r := int64(0)
+			if a < b {
+				r = -1
+			} else if a > b {
+				r = 1
+			}
+			return []aval{{K: aConst, C: constant.MakeInt64(r)}}, true
+		}
+		return te
+	}
+	put := func(te *tagEval, r absRange) aval {
+		return te.newObj(map[int]aval{fi["Start"]: tok(r.s), fi["End"]: tok(r.e), fi["StartIncluded"]: boolConst(r.si), fi["EndIncluded"]: boolConst(r.ei)})
+	}
+	get := func(te *tagEval, p aval) (absRange, bool) {
+		if p.K != aPtr {
+			return absRange{}, false
+		}
+		obj := te.heap[p.Idx]
+		var r absRange
+		var ok1, ok2, ok3, ok4 bool
+		fld := func(name string, t types.Type) aval {
+			if v, ok := obj[fi[name]]; ok {
+				return v
+			}
+			return zeroAval(t)
+		}
+		r.s, ok1 = untok(fld("Start", st.Field(fi["Start"]).Type()))
+		r.e, ok2 = untok(fld("End", st.Field(fi["End"]).Type()))
+		r.si, ok3 = avalBool(fld("StartIncluded", types.Typ[types.Bool]))
+		r.ei, ok4 = avalBool(fld("EndIncluded", types.Typ[types.Bool]))
+		return r, ok1 && ok2 && ok3 && ok4
+	}
+	evalEmpty := func(r absRange) (bool, string) {
+		te := newEval()
+		p := put(te, r)
+		outs := te.Eval(isEmpty, []aval{p}, 0)
+		b, why := singleBool(outs)
+		if why == "" && te.heapForked {
+			why = "a condition was not decided by the operands"
+		}
+		return b, why
+	}
+	bounds := []int64{0, 2, 4, 6, 8}
+	probes := []int64{0, 1, 2, 3, 4, 5, 6, 7, 8, 9}
+	var domain []absRange
+	for _, s := range bounds {
+		for _, e := range bounds {
+			for _, si := range []bool{false, true} {
+				for _, ei := range []bool{false, true} {
+					r := absRange{s, e, si, ei}
+					if s == 0 && e == 0 && !r.isNilOnly() {
+						continue // outside the stated domain: at least one non-nil bound, or the nil-only range
+					}
+					if !r.isNilOnly() && ((s == 0 && si) || (e == 0 && ei)) {
+						continue // an included nil bound other than in the nil-only range: not an open end, no operator produces it
+					}
+					domain = append(domain, r)
+				}
+			}
+		}
+	}
+	// IsEmpty
+	{
+		key := "Range.IsEmpty/empty only if no value lies in the range"
+		bad, undec := "", ""
+		for _, r := range domain {
+			emp, why := evalEmpty(r)
+			if why != "" {
+				undec = why
+				continue
+			}
+			if !emp {
+				continue
+			}
+			for _, v := range probes {
+				if r.member(v) {
+					bad = fmt.Sprintf("%s is reported empty although %s lies in it", r, absRange{v, v, true, true}.String())
+				}
+			}
+		}
+		switch {
+		case bad != "":
+			o.add(VIOLATED, key, relPath(c, isEmpty.Pos()), "%s", bad)
+		case undec != "":
+			o.add(UNDECIDED, key, relPath(c, isEmpty.Pos()), "%s", undec)
+		default:
+			o.add(OK, key, relPath(c, isEmpty.Pos()), "checked on %d ranges over 4 ordered symbolic values and nil, 10 probe values", len(domain))
+		}
+	}
+	// Intersect
+	{
+		key := "Range.Intersect/keeps every value that lies in both ranges"
+		keyM := "Range.Intersect/does not modify its operands"
+		bad, undec, badM := "", "", ""
+		n := 0
+		for _, r1 := range domain {
+			for _, r2 := range domain {
+				common := false
+				for _, v := range probes {
+					if r1.member(v) && r2.member(v) {
+						common = true
+					}
+				}
+				te := newEval()
+				p1, p2 := put(te, r1), put(te, r2)
+				outs := te.Eval(inter, []aval{p1, p2}, 0)
+				n++
+				if len(outs) != 1 || outs[0].Panic || len(outs[0].Vals) != 1 || te.heapForked {
+					undec = fmt.Sprintf("Intersect(%s, %s) was not decided by the operands", r1, r2)
+					if len(outs) > 0 && outs[0].Panic {
+						bad = fmt.Sprintf("Intersect(%s, %s) panics: %s", r1, r2, outs[0].Why)
+					}
+					continue
+				}
+				res, ok := get(te, outs[0].Vals[0])
+				if !ok {
+					undec = fmt.Sprintf("the result of Intersect(%s, %s) was not decided by the operands", r1, r2)
+					continue
+				}
+				if a, ok := get(te, p1); !ok || a != r1 {
+					badM = fmt.Sprintf("Intersect(%s, %s) changes its receiver to %s", r1, r2, a)
+				}
+				if a, ok := get(te, p2); !ok || a != r2 {
+					badM = fmt.Sprintf("Intersect(%s, %s) changes its argument to %s", r1, r2, a)
+				}
+				if !common {
+					continue
+				}
+				emp, why := evalEmpty(res)
+				if why != "" {
+					undec = why
+					continue
+				}
+				for _, v := range probes {
+					if r1.member(v) && r2.member(v) && (emp || !res.member(v)) {
+						what := "does not contain it"
+						if emp {
+							what = "is reported empty"
+						}
+						bad = fmt.Sprintf("%s lies in %s and in %s, but their intersection %s %s", absRange{v, v, true, true}.String(), r1, r2, res, what)
+					}
+				}
+			}
+		}
+		switch {
+		case bad != "":
+			o.add(VIOLATED, key, relPath(c, inter.Pos()), "%s", bad)
+		case undec != "":
+			o.add(UNDECIDED, key, relPath(c, inter.Pos()), "%s", undec)
+		default:
+			o.add(OK, key, relPath(c, inter.Pos()), "checked on all %d pairs of ranges over 4 ordered symbolic values and nil (every relative order of four bounds), 10 probe values", n)
+		}
+		switch {
+		case badM != "":
+			o.add(VIOLATED, keyM, relPath(c, inter.Pos()), "%s", badM)
+		case undec == "":
+			o.add(OK, keyM, relPath(c, inter.Pos()), "the operands are unchanged after every evaluated call")
+		}
+	}
+	return softenUndecided(o.list)
+}
+
+// ---------------------------------------------------------------- PANIC3
+
+// nonNegative: v is a constant >= 0, a len/cap, or a sum/product/min of such.
+func nonNegative(v ssa.Value, depth int) bool {
+	if depth > 6 {
+		return false
+	}
+	if k, ok := constInt(v); ok {
+		return k >= 0
+	}
+	switch x := v.(type) {
+	case *ssa.Call:
+		if g := x.Common().StaticCallee(); g != nil && len(g.Blocks) > 0 && g.Signature.Results().Len() == 1 {
+			all := true
+			for _, ret := range returnsOf(g) {
+				rv, ok := returnedValue(ret, 0)
+				if !ok || !nonNegative(rv, depth+1) {
+					all = false
+				}
+			}
+			return all
+		}
+		if b, ok := x.Common().Value.(*ssa.Builtin); ok {
+			switch b.Name() {
+			case "len", "cap":
+				return true
+			case "min":
+				for _, a := range x.Common().Args {
+					if !nonNegative(a, depth+1) {
+						return false
+					}
+				}
+				return true
+			case "max":
+				for _, a := range x.Common().Args {
+					if nonNegative(a, depth+1) {
+						return true
+					}
+				}
+			}
+		}
+	case *ssa.BinOp:
+		switch x.Op {
+		case token.ADD, token.MUL:
+			return nonNegative(x.X, depth+1) && nonNegative(x.Y, depth+1)
+		case token.QUO, token.SHR:
+			return nonNegative(x.X, depth+1) && nonNegative(x.Y, depth+1)
+		case token.REM, token.AND:
+			return nonNegative(x.X, depth+1) || nonNegative(x.Y, depth+1)
+		}
+	case *ssa.Phi:
+		for i, e := range x.Edges {
+			if e == ssa.Value(x) || nonNegative(e, depth+1) {
+				continue
+			}
+			if i < len(x.Block().Preds) && edgeNonNeg(x.Block().Preds[i], x.Block(), e) {
+				continue // the clamp idiom: if v < 0 { v = 0 }
+			}
+			return false
+		}
+		return true
+	case *ssa.Convert:
+		if bt, ok := x.X.Type().Underlying().(*types.Basic); ok && bt.Info()&types.IsUnsigned != 0 {
+			return true
+		}
+		return nonNegative(x.X, depth+1)
+	}
+	return false
+}
+
+// edgeNonNeg: on the CFG edge p -> succ, v is known to be >= 0 (p ends in a sign test of v).
+func edgeNonNeg(p, succ *ssa.BasicBlock, v ssa.Value) bool {
+	if len(p.Instrs) == 0 || len(p.Succs) != 2 || p.Succs[0] == p.Succs[1] {
+		return false
+	}
+	i, ok := p.Instrs[len(p.Instrs)-1].(*ssa.If)
+	if !ok {
+		return false
+	}
+	bo, ok := i.Cond.(*ssa.BinOp)
+	if !ok {
+		return false
+	}
+	onTrue := succ == p.Succs[0]
+	k, isK := constInt(bo.Y)
+	if bo.X == v && isK {
+		switch bo.Op {
+		case token.LSS: // v < k false => v >= k
+			return !onTrue && k >= 0
+		case token.LEQ:
+			return !onTrue && k >= -1
+		case token.GEQ:
+			return onTrue && k >= 0
+		case token.GTR:
+			return onTrue && k >= -1
+		}
+	}
+	return false
+}
+
+// PANIC3: the length and capacity handed to make are provably not negative
+// (constants, len/cap, sums of those) or guarded by a sign test: a size
+// computed by subtracting caller-controlled quantities (a counter minus the
+// query's skip) makes `make` panic for a skip beyond the collection's size.
+func rulePANIC3(c *Ctx) []Ob {
+	o := newObs(c, "PANIC3")
+	for _, fn := range c.LibFuncs {
+		n := 0
+		for _, b := range fn.Blocks {
+			for _, in := range b.Instrs {
+				ms, ok := in.(*ssa.MakeSlice)
+				if !ok {
+					continue
+				}
+				n++
+				key := fmt.Sprintf("%s/make #%d", c.fname(fn), n)
+				pos := relPath(c, ms.Pos())
+				bad := ""
+				for _, sz := range []ssa.Value{ms.Len, ms.Cap} {
+					if sz == nil || nonNegative(sz, 0) {
+						continue
+					}
+					// a sign test dominating the make: sz >= 0, sz > k, !(sz < 0)
+					guards := guardEdges(fn, func(cond ssa.Value, branch bool) bool {
+						bo, ok := cond.(*ssa.BinOp)
+						if !ok {
+							return false
+						}
+						x, y := bo.X, bo.Y
+						op := bo.Op
+						if y == sz || sameOrigin(y, sz) {
+							x, y = y, x
+							switch op {
+							case token.LSS:
+								op = token.GTR
+							case token.LEQ:
+								op = token.GEQ
+							case token.GTR:
+								op = token.LSS
+							case token.GEQ:
+								op = token.LEQ
+							}
+						}
+						if x != sz && !sameOrigin(x, sz) {
+							return false
+						}
+						if !nonNegative(y, 0) {
+							return false
+						}
+						switch op {
+						case token.GEQ, token.GTR:
+							return branch // sz >= nonneg
+						case token.LSS:
+							return !branch // !(sz < nonneg) with y == 0 only
+						}
+						return false
+					})
+					if !guardedBy(fn, b, guards) {
+						bad = describeValue(c, sz)
+					}
+				}
+				if bad != "" {
+					o.add(VIOLATED, key, pos, "the size given to make (%s) is neither a length, a constant, a sum of those, nor guarded by a sign test: when it is negative make panics", bad)
+				} else {
+					o.add(OK, key, pos, "sizes are lengths/constants or sign-tested")
+				}
+			}
+		}
+	}
+	return o.list
+}
+
+// ---------------------------------------------------------------- ID4
+
+// ID4: the _id check accepts exactly what the UUID parser accepts. In every
+// library function that decides validity by calling uuid.FromString, a result
+// of true is returned only under (or as) the test that the parser's error is
+// nil: no fast path accepts a string the parser was not asked about.
+func ruleID4(c *Ctx) []Ob {
+	o := newObs(c, "ID4")
+	n := 0
+	for _, fn := range c.LibFuncs {
+		res := fn.Signature.Results()
+		if res.Len() != 1 || fn.Parent() != nil {
+			continue
+		}
+		if bt, ok := res.At(0).Type().Underlying().(*types.Basic); !ok || bt.Kind() != types.Bool {
+			continue
+		}
+		var perr []ssa.Value
+		allCalls(fn, func(ci ssa.CallInstruction) {
+			if cl, ok := ci.(*ssa.Call); ok && strings.HasSuffix(calleeFullName(cl), "uuid/v5.FromString") {
+				perr = append(perr, resultValues(cl, 1)...)
+			}
+		})
+		if len(perr) == 0 {
+			continue
+		}
+		isErr := func(x ssa.Value) bool {
+			for _, e := range perr {
+				if x == e {
+					return true
+				}
+			}
+			return false
+		}
+		okEdges := nilEdges(fn, isErr)
+		for _, ret := range returnsOf(fn) {
+			rv, ok := returnedValue(ret, 0)
+			if !ok {
+				continue
+			}
+			for _, og := range origins(rv) {
+				n++
+				key := fmt.Sprintf("%s/accepts only what the parser accepts", c.fname(fn))
+				if n > 1 {
+					key = fmt.Sprintf("%s #%d", key, n)
+				}
+				pos := relPath(c, ret.Pos())
+				if b, isC := constBool(og); isC {
+					if !b {
+						o.add(OK, key, pos, "returns false")
+						continue
+					}
+					pb := ret.Block()
+					if phi, isPhi := rv.(*ssa.Phi); isPhi {
+						// the block the constant comes from
+						for i, e := range phi.Edges {
+							if e == og {
+								pb = phi.Block().Preds[i]
+							}
+						}
+					}
+					if guardedBy(fn, pb, okEdges) {
+						o.add(OK, key, pos, "true only after uuid.FromString returned no error")
+					} else {
+						o.add(VIOLATED, key, pos, "an _id is accepted on a path on which uuid.FromString has not accepted it: a string the parser rejects (misplaced hyphens, wrong length) becomes a stored _id")
+					}
+					continue
+				}
+				if x, tnil, isT := nilTest(og); isT && isErr(x) && tnil {
+					o.add(OK, key, pos, "returns `err == nil` of uuid.FromString")
+					continue
+				}
+				o.add(VIOLATED, key, pos, "the verdict (%s) is not the outcome of uuid.FromString", describeValue(c, og))
+			}
+		}
+	}
+	if n == 0 {
+		o.add(UNDECIDED, "validator", "-", "no boolean function deciding on uuid.FromString found")
+		return softenUndecided(o.list)
+	}
+	return o.list
+}
+
+// ---------------------------------------------------------------- DEAD1
+
+// DEAD1: the result of a library function that computes a value is not thrown
+// away. `for _, e := range xs { e = convert(e) }` compiles, reads like an
+// in-place update and changes nothing: in SSA the call's result has no use.
+// Judged: static calls to library functions with exactly one non-error result,
+// at least one of whose returns is not simply a parameter of the callee.
+func ruleDEAD1(c *Ctx) []Ob {
+	o := newObs(c, "DEAD1")
+	produces := map[*ssa.Function]bool{}
+	for _, g := range c.LibFuncs {
+		res := g.Signature.Results()
+		if res.Len() != 1 || isErrorType(res.At(0).Type()) || g.Parent() != nil {
+			continue
+		}
+		for _, ret := range returnsOf(g) {
+			rv, ok := returnedValue(ret, 0)
+			if !ok {
+				continue
+			}
+			for _, og := range origins(rv) {
+				if _, isP := og.(*ssa.Parameter); !isP {
+					produces[g] = true
+				}
+			}
+		}
+	}
+	for _, fn := range c.LibFuncs {
+		n := 0
+		for _, b := range fn.Blocks {
+			for _, in := range b.Instrs {
+				call, ok := in.(*ssa.Call)
+				if !ok {
+					continue
+				}
+				g := staticCallee(call)
+				if g == nil || !produces[c.declared(g)] {
+					continue
+				}
+				// builders returning their receiver for chaining are exempt
+				if g.Signature.Recv() != nil && types.Identical(g.Signature.Results().At(0).Type(), g.Signature.Recv().Type()) {
+					continue
+				}
+				n++
+				key := fmt.Sprintf("%s/%s #%d", c.fname(fn), shortCallee(call), n)
+				if len(realReferrers(call)) == 0 {
+					// a container handed over by reference is updated in place: its (identical) result may be dropped
+					allRef := len(call.Common().Args) > 0
+					for _, a := range call.Common().Args {
+						switch stripIfaceOnly(a).Type().Underlying().(type) {
+						case *types.Map, *types.Slice, *types.Pointer, *types.Chan:
+						default:
+							allRef = false
+						}
+					}
+					if allRef {
+						o.add(OK, key, relPath(c, call.Pos()), "result dropped, the argument is a map/slice/pointer updated in place")
+						continue
+					}
+					o.add(VIOLATED, key, relPath(c, call.Pos()), "the value computed by %s is discarded (an assignment to a range or local copy that is never read): the conversion it performs does not happen", shortCallee(call))
+				} else {
+					o.add(OK, key, relPath(c, call.Pos()), "result used")
 				}
 			}
 		}
